@@ -101,9 +101,10 @@ func (r *Refs) IsBranchExist(branchName string) bool {
 	return p != NewBranchFlag
 }
 
-// a branch is a file directly inside refs/heads: its name must not leave that directory
+// a branch is a file directly inside refs/heads: its name must not leave that directory.
+// HEAD holds the name on one line ("ref: refs/heads/<name>"), so a name cannot contain a line break
 func isValidBranchName(name string) bool {
-	return name != "" && name != "." && name != ".." && !strings.ContainsAny(name, "/\\\x00")
+	return name != "" && name != "." && name != ".." && !strings.ContainsAny(name, "/\\\x00\n\r")
 }
 
 func (r *Refs) AddBranch(rootGoitPath, newBranchName string, newBranchHash sha.SHA1) error {
